@@ -156,7 +156,29 @@ type c18Case struct {
 	withNrm bool      // the model has supplied normals for this variant
 	solid   bool      // emit the closedness / outwardness / volume oracles
 	huge    bool      // > 100000 vertices: sampled position / outward lines + the full volume oracle (quick), everything (thorough)
-	build   func() modeling.Mesh
+	node    string    // built through a node wrapper: "<sphere|hemi|cyl|cube> <port tokens>" ('-' = port not connected); the
+	//                   model then ALSO derives constructor, parameters and scalars itself from the ports (c18.nodetris/nodenv/nodepos)
+	build func() modeling.Mesh
+}
+
+// port tokens of the node lines: '-' when the port is not connected
+func c18PortInt(set bool, v int) string {
+	if !set {
+		return "-"
+	}
+	return strconv.Itoa(v)
+}
+func c18PortFloat(set bool, v float64) string {
+	if !set {
+		return "-"
+	}
+	return F(v)
+}
+func c18PortBool(set bool, v bool) string {
+	if !set {
+		return "-"
+	}
+	return c18B01(v)
 }
 
 func c18Join(parts ...string) string {
@@ -193,6 +215,21 @@ func (c *Ctx) c18ReplayHistory() {
 func (c *Ctx) c18EmitMesh(cs c18Case, m c18Mesh) {
 	kp := c18Join(cs.kind, cs.params)
 	sc := Fs(cs.scalars...)
+	if cs.node != "" {
+		// the wrapper's defaults / clamps / choice of constructor are the MODEL's here (Model/SolidsNodes.lean, proved equal
+		// to the Process() bodies regenerated from the source): the request carries only the connected ports
+		nk, ports, _ := strings.Cut(cs.node, " ")
+		c.Note("nodeline." + nk)
+		if m.panicked {
+			c.Emit("c18.nodetris."+nk, ports, "panic")
+		} else {
+			c.Emit("c18.nodetris."+nk, ports, c18Ints(m.idx))
+			c.Emit("c18.nodenv."+nk, ports, strconv.Itoa(len(m.pos)))
+			if cs.admit && cs.withPos && len(m.pos) <= c18PosLimit {
+				c.Emit("c18.nodepos."+nk, ports, c18V3s(m.pos))
+			}
+		}
+	}
 	if m.panicked {
 		c.Emit("c18.tris."+cs.kind, cs.params, "panic")
 		c.Note(cs.kind + ".panic")
@@ -392,12 +429,16 @@ func (c *Ctx) c18Box(w, h, d float64, uvs bool) {
 func (c *Ctx) c18Defaults() {
 	c.Note("node-defaults")
 	c.c18Emit(c18Case{kind: "sphere", params: "10 10", scalars: []float64{0.5}, size: 0.5, admit: true, withPos: true, withNrm: true, solid: true,
+		node:  "sphere - - - -",
 		build: func() modeling.Mesh { m, _ := primitives.UvSphereNodeData{}.Process(); return m }})
 	c.c18Emit(c18Case{kind: "hemi", params: "20 20", scalars: []float64{0.5}, size: 0.5, admit: true, withPos: true, solid: true,
+		node:  "hemi - - - -",
 		build: func() modeling.Mesh { m, _ := primitives.HemisphereNodeData{}.Process(); return m }})
 	c.c18Emit(c18Case{kind: "cyl", params: "20 0 0", scalars: []float64{0.5, 1}, size: 1, admit: true, withPos: true, withNrm: true, solid: true,
+		node:  "cyl - - - - -",
 		build: func() modeling.Mesh { m, _ := primitives.CylinderNodeData{}.Process(); return m }})
 	c.c18Emit(c18Case{kind: "cubeq", scalars: []float64{1, 1, 1}, size: 1, admit: true, withPos: true, withNrm: true, solid: true,
+		node:  "cube - - -",
 		build: func() modeling.Mesh { m, _ := primitives.CubeNodeData{}.Process(); return m }})
 	c.c18Emit(c18Case{kind: "cubew", scalars: []float64{1, 1, 1}, size: 1, admit: true, withPos: true, withNrm: true, solid: true,
 		build: func() modeling.Mesh { return primitives.UnitCube() }})
@@ -481,6 +522,7 @@ func (c *Ctx) c18Nodes() {
 				cr, cc := max(rows, 2), max(cols, 3)
 				c.c18Emit(c18Case{kind: kind, params: strconv.Itoa(cr) + " " + strconv.Itoa(cc), scalars: []float64{radius}, size: radius,
 					admit: true, withPos: true, withNrm: weld, solid: true,
+					node:  c18Join("sphere", c18PortFloat(radius != 0.5, radius), strconv.Itoa(rows), strconv.Itoa(cols), c18PortBool(w != 0, weld)),
 					build: func() modeling.Mesh { return (&primitives.UvSphereNode{Data: data}).Value() }})
 			}
 		}
@@ -492,6 +534,7 @@ func (c *Ctx) c18Nodes() {
 			data := primitives.HemisphereNodeData{Rows: c18Int(rows), Columns: c18Int(cols), Radius: c18Float(radius), Capped: c18Bool(rows%2 == 0)}
 			c.c18Emit(c18Case{kind: "hemi", params: strconv.Itoa(rows) + " " + strconv.Itoa(cols), scalars: []float64{radius}, size: radius,
 				admit: rows >= 2 && cols >= 3, withPos: true, solid: true,
+				node:  c18Join("hemi", strconv.Itoa(rows), strconv.Itoa(cols), F(radius), c18B01(rows%2 == 0)),
 				build: func() modeling.Mesh { m, _ := data.Process(); return m }})
 		}
 	}
@@ -505,6 +548,7 @@ func (c *Ctx) c18Nodes() {
 			c.c18Emit(c18Case{kind: "cyl", params: strconv.Itoa(sides) + " " + c18B01(!top) + " " + c18B01(!bottom),
 				scalars: []float64{radius, height}, size: height, admit: sides >= 3 || (!top && !bottom),
 				withPos: both, withNrm: both, solid: both && sides >= 3,
+				node:  c18Join("cyl", strconv.Itoa(sides), F(height), F(radius), c18B01(top), c18B01(bottom)),
 				build: func() modeling.Mesh { m, _ := data.Process(); return m }})
 		}
 	}
@@ -512,6 +556,7 @@ func (c *Ctx) c18Nodes() {
 		c.Note("node.cube")
 		data := primitives.CubeNodeData{Width: c18Float(d[0]), Height: c18Float(d[1]), Depth: c18Float(d[2])}
 		c.c18Emit(c18Case{kind: "cubeq", scalars: []float64{d[0], d[1], d[2]}, size: 3, admit: true, withPos: true, withNrm: true, solid: true,
+			node:  c18Join("cube", F(d[0]), F(d[1]), F(d[2])),
 			build: func() modeling.Mesh { return (&primitives.CubeNode{Data: data}).Value() }})
 	}
 }
@@ -544,6 +589,7 @@ func (c *Ctx) c18NodeSubsets() {
 		}
 		c.c18Emit(c18Case{kind: kind, params: strconv.Itoa(rows) + " " + strconv.Itoa(cols), scalars: []float64{radius}, size: radius,
 			admit: true, withPos: true, withNrm: weld, solid: true,
+			node:  c18Join("sphere", c18PortFloat(mask&1 != 0, radius), c18PortInt(mask&2 != 0, rows), c18PortInt(mask&4 != 0, cols), c18PortBool(mask&8 != 0, weld)),
 			build: func() modeling.Mesh { return (&primitives.UvSphereNode{Data: data}).Value() }})
 	}
 	for mask := 0; mask < 16; mask++ {
@@ -567,6 +613,7 @@ func (c *Ctx) c18NodeSubsets() {
 		}
 		c.c18Emit(c18Case{kind: "hemi", params: strconv.Itoa(rows) + " " + strconv.Itoa(cols), scalars: []float64{radius}, size: radius,
 			admit: true, withPos: true, solid: true,
+			node:  c18Join("hemi", c18PortInt(mask&2 != 0, rows), c18PortInt(mask&4 != 0, cols), c18PortFloat(mask&1 != 0, radius), c18PortBool(mask&8 != 0, false)),
 			build: func() modeling.Mesh { return (&primitives.HemisphereNode{Data: data}).Value() }})
 	}
 	for mask := 0; mask < 32; mask++ {
@@ -597,6 +644,8 @@ func (c *Ctx) c18NodeSubsets() {
 		c.c18Emit(c18Case{kind: "cyl", params: strconv.Itoa(sides) + " " + c18B01(!top) + " " + c18B01(!bottom),
 			scalars: []float64{radius, height}, size: math.Max(radius, height), admit: true,
 			withPos: both, withNrm: both, solid: both,
+			node: c18Join("cyl", c18PortInt(mask&1 != 0, sides), c18PortFloat(mask&2 != 0, height), c18PortFloat(mask&4 != 0, radius),
+				c18PortBool(mask&8 != 0, top), c18PortBool(mask&16 != 0, bottom)),
 			build: func() modeling.Mesh { return (&primitives.CylinderNode{Data: data}).Value() }})
 	}
 	for mask := 0; mask < 8; mask++ {
@@ -616,6 +665,7 @@ func (c *Ctx) c18NodeSubsets() {
 			data.Depth = c18Float(d)
 		}
 		c.c18Emit(c18Case{kind: "cubeq", scalars: []float64{w, h, d}, size: 3, admit: true, withPos: true, withNrm: true, solid: true,
+			node:  c18Join("cube", c18PortFloat(mask&1 != 0, w), c18PortFloat(mask&2 != 0, h), c18PortFloat(mask&4 != 0, d)),
 			build: func() modeling.Mesh { return (&primitives.CubeNode{Data: data}).Value() }})
 	}
 }
